@@ -35,9 +35,25 @@
    Hypotheses on a history ([hist_ok], Proofs/VaultLifeHist.v): signers / liquidators / bidders are not the
    custody account, and the environment amounts of a successful bid respect the bounds Properties/C10.v
    (c10_bid_amounts) proves for the auction arithmetic (paid <= debt left, received <= collateral left).
-   The theorems named ..._messages_... are the earlier statements over histories of vault messages only. *)
+   The theorems named ..._messages_... are the earlier statements over histories of vault messages only.
+
+   EMERGENCY SHUTDOWN (Model/EsmLife.v on top of the life cycle): the histories of the theorems c01_esm_* also
+   contain MsgDepositESM / MsgExecuteESM, the esm BeginBlocker (price snapshot; after the cool-off the vault,
+   stable-mint and collector set-up steps; the share calculation), every keeper step called on its own, and
+   MsgCollateralRedemption.  [InvE] (Proofs/EsmLifeInv.v) is [InvL] plus: custody of the esm account of EVERY
+   denom = the collateral registered in the AssetToAmount records of all apps (>= 0) = collateral pooled by the
+   set-up steps - collateral paid out by redemptions; the records have distinct keys and sides that agree with
+   the role of their asset.  So through the whole shutdown
+       vault custody + esm custody = collateral on open vaults and stable-mint vaults + unsolicited coins
+                                     + collateral registered for redemption                (- the C01-F4 ghost),
+   nothing is paid out that was not pooled, and the stable-mint set-up step leaves no stable-mint vault behind.
+   Hypotheses: [eop_ok] = [lop_ok] + no message is signed by the esm module account; [roles_ok]: no asset is the
+   collateral of one product and the debt asset of another.
+   Finding C01-F5 (SetUpCollateralRedemptionForStableVault left the emptied stable-mint vault record behind) was
+   reproduced on the real keepers; it is repaired by fixes/C01-F5/patch.diff and the model follows the repaired code. *)
 From Comdex Require Import Lib.Base Lib.Atomic Model.Vault Model.VaultExample Model.VaultLife Model.VaultLifeExample
   Proofs.VaultProofs Proofs.VaultInv Proofs.VaultLifeBase Proofs.VaultLifeInv Proofs.VaultLifeHist Proofs.VaultLifeWitness.
+From Comdex Require Import Model.EsmLife Model.EsmLifeExample Proofs.EsmLifeInv Proofs.EsmLifeHist Proofs.EsmLifeWitness.
 From Coq Require Import Sorted.
 
 (* the books before the first vault message satisfy the identity when custody is empty *)
@@ -195,3 +211,76 @@ Example c01_life_predicate_discriminates :
   let l := lrun_all lx_cfg lx_lc lx_ops_a lx_init in
   holds_C01_life lx_cfg lx_denoms (set_vs l (upd_coll (vs l) 1 5 2000000 true)) = false.
 Proof. vm_compute. reflexivity. Qed.
+
+(* ====================== emergency shutdown ====================== *)
+
+(* the books before the first step: custody and the esm account empty *)
+Theorem c01_esm_init : forall c b sp t pr tm, (forall d, b VAULT d = 0) -> (forall d, b ESMA d = 0) ->
+  InvE c (elift (lift (init b sp t pr)) tm).
+Proof. exact invE_init. Qed.
+Print Assumptions c01_esm_init.
+
+(* one step of any kind: a life-cycle step, MsgDepositESM, MsgExecuteESM, MsgCollateralRedemption, a keeper
+   set-up step, the whole esm BeginBlocker *)
+Theorem c01_esm_step : forall c lc ec e o e', cfg_ok c -> roles_ok c -> eop_ok e o -> InvE c e -> erun c lc ec e o = Ok e' -> InvE c e'.
+Proof. intros c lc ec e o e' CK RO Hok I H. exact (proj1 (erun_pair c lc ec e o e' CK RO Hok I H)). Qed.
+Print Assumptions c01_esm_step.
+
+Theorem c01_esm_rejected_noop : forall c lc ec e o, is_ok (erun c lc ec e o) = false -> estep c lc ec e o = e.
+Proof. exact estep_rejected. Qed.
+Print Assumptions c01_esm_rejected_noop.
+
+(* between any two steps of EVERY finite history through the emergency shutdown *)
+Theorem c01_esm_history : forall c lc ec ops e, cfg_ok c -> roles_ok c -> ehist_ok c lc ec e ops -> InvE c e -> InvE c (erun_all c lc ec ops e).
+Proof. intros c lc ec ops e CK RO HO I. exact (proj1 (ehistory_pair c lc ec ops CK RO e HO I)). Qed.
+Print Assumptions c01_esm_history.
+
+(* the custody identities through redemption: vault custody (as before), esm custody = registered collateral
+   = pooled - paid out, paid out between 0 and pooled *)
+Theorem c01_esm_identities : forall c e, InvE c e ->
+  (forall d, bal (vs (el e)) VAULT d = coll_sum c (vs (el e)) d + unsol (vs (el e)) d - er_short (el e) d) /\
+  (forall d, bal (vs (el e)) ESMA d = esm_coll e d) /\
+  (forall d, esm_coll e d = epool e d - epaid e d /\ 0 <= epaid e d <= epool e d).
+Proof. exact invE_identities. Qed.
+Print Assumptions c01_esm_identities.
+
+(* the executable predicates the runner evaluates on the implementation's observations: the identity of the
+   property text (outside the known-finding classes of the auction path) together with the esm custody identity *)
+Theorem c01_esm_predicate_holds : forall c lc ec ops b sp t pr tm denoms, cfg_ok c -> roles_ok c ->
+  (forall d, b VAULT d = 0) -> (forall d, b ESMA d = 0) ->
+  ehist_ok c lc ec (elift (lift (init b sp t pr)) tm) ops ->
+  let e := erun_all c lc ec ops (elift (lift (init b sp t pr)) tm) in
+  (kf_C01_life c denoms (el e) = false -> holds_C01_esm c denoms e = true) /\
+  forallb (c01e_esm_custody e) denoms = true /\ forallb (c01e_paid_le_pool e) denoms = true.
+Proof.
+  intros c lc ec ops b sp t pr tm denoms CK RO Hb He HO e.
+  pose proof (proj1 (ehistory_pair c lc ec ops CK RO _ HO (invE_init c b sp t pr tm Hb He))) as I. fold e in I.
+  split; [intros K; exact (invE_holds c e denoms I K)|exact (invE_esm_custody c e denoms I)].
+Qed.
+Print Assumptions c01_esm_predicate_holds.
+
+(* non-vacuity: the history of Model/EsmLifeExample.v (the one replayed on the real keepers) meets every hypothesis;
+   all steps succeed but the four the keepers reject too; after the set-up block the vault custody of the three
+   denoms is empty, the esm account holds 150000000 / 30000000 = the registered collateral, no vault and NO
+   stable-mint vault is left (regression of C01-F5) and both product records read 0 / 0 / []; after the last
+   redemption 31 and 7 base units of dust remain, = registered = pooled - paid out *)
+Example c01_esm_example_hyps : cfg_ok ee_cfg /\ roles_ok ee_cfg /\ InvE ee_cfg ee_init /\ ehist_ok ee_cfg ee_lc ee_ec ee_init ee_ops.
+Proof. exact (conj ee_cfg_ok (conj ee_roles_ok (conj ee_init_inv ee_hist))). Qed.
+Example c01_f5_regression :
+  eclasses ee_cfg ee_lc ee_ec ee_init ee_ops = [0; 0; 0; 0; 1; 0; 1; 0; 0; 0; 1; 0; 0; 0; 0; 0; 0; 0; 0] /\
+  let m := erun_all ee_cfg ee_lc ee_ec (firstn 13 ee_ops) ee_init in
+  let f := erun_all ee_cfg ee_lc ee_ec ee_ops ee_init in
+  svaults (vs (el m)) = [] /\ vaults (vs (el m)) = [] /\
+  map (fun d => (bal (vs (el m)) VAULT d, bal (vs (el m)) ESMA d, esm_coll m d)) ee_denoms = [(0, 150000000, 150000000); (0, 30000000, 30000000); (0, 0, 0)] /\
+  prods (vs (el m)) 1 1 = Some (mkP 0 0 []) /\ prods (vs (el m)) 1 2 = Some (mkP 0 0 []) /\
+  holds_C01_esm ee_cfg ee_denoms m = true /\
+  map (fun d => (bal (vs (el f)) ESMA d, esm_coll f d, epool f d, epaid f d)) ee_denoms = [(31, 31, 150000000, 149999969); (7, 7, 30000000, 29999993); (0, 0, 0, 0)] /\
+  kf_C01_life ee_cfg ee_denoms (el f) = false /\ holds_C01_esm ee_cfg ee_denoms f = true.
+Proof. vm_compute. repeat split; reflexivity. Qed.
+(* the predicate is not trivially true: it rejects the unrepaired behaviour (the stable-mint vault record left behind
+   after its collateral has gone to the esm account) and an esm account one coin short of the records *)
+Example c01_esm_predicate_discriminates :
+  let m := erun_all ee_cfg ee_lc ee_ec (firstn 13 ee_ops) ee_init in
+  holds_C01_esm ee_cfg ee_denoms (set_el m (set_vs (el m) (set_svaults (vs (el m)) [mkSV 1 1 2 30000000 30000000]))) = false /\
+  holds_C01_esm ee_cfg ee_denoms (set_el m (set_vs (el m) (set_bal (vs (el m)) (fun a d => if (a =? ESMA) && (d =? 3) then 29999999 else bal (vs (el m)) a d)))) = false.
+Proof. vm_compute. split; reflexivity. Qed.
